@@ -44,6 +44,9 @@ class PathEnd(BaseException):
     """The current path stops here (assumption infeasible, loop back-edge reached, ...)."""
 
 
+_FIRST_MS = int(os.environ.get('PYVC_Z3_FIRST_MS', '700'))
+
+
 class Unsupported(Exception):
     """The engine met something it does not model: the function is *undecided*, never a violation."""
 
@@ -211,11 +214,13 @@ class Engine:
             neg = z3.Not(cond)
             self.solver.push()
             self.solver.add(neg)
-            if z3_ms is not None:
-                self.solver.set('timeout', min(z3_ms, self.timeout_ms))
+            # first a SHORT budget for the in-process z3 (most obligations take milliseconds; z3's sequence/string solver is
+            # erratic on the rest: the same query takes 0.1 s or 40 s), then cvc5 and the z3 4.8 CLI with the full budget,
+            # and only then the in-process z3 again with the full budget
+            first_ms = min(z3_ms if z3_ms is not None else _FIRST_MS, self.timeout_ms)
+            self.solver.set('timeout', first_ms)
             r = self.solver.check()
-            if z3_ms is not None:
-                self.solver.set('timeout', self.timeout_ms)
+            self.solver.set('timeout', self.timeout_ms)
             smt = ''
             model = None
             backend = 'z3-' + z3.get_version_string()
@@ -227,11 +232,27 @@ class Engine:
                                        smt2=self.solver.to_smt2()[:3000])
             elif r == z3.sat:
                 st = 'refuted'
-                model = self._extract_model(self.solver.model())
+                model = self._extract_model(self.finite_model())
             else:
+                # a RACE: cvc5 and the z3 4.8 CLI run on the exported query while the in-process z3 tries again with the full
+                # budget; whoever decides first wins (an `unsat` from a CLI interrupts the in-process run)
                 smt = self.solver.to_smt2()
-                st, backend = _external(smt, self.timeout_ms)
-                if st == 'refuted':
+                race = _ExternalRace(smt, self.timeout_ms, self.solver.ctx)
+                r2 = z3.unknown
+                try:
+                    race.in_check = True
+                    r2 = self.solver.check() if first_ms < self.timeout_ms else z3.unknown
+                finally:
+                    race.in_check = False
+                    ext_st, ext_backend = race.finish(wait=(r2 == z3.unknown))
+                if r2 == z3.unsat:
+                    st, backend = 'proved', 'z3-' + z3.get_version_string()
+                elif r2 == z3.sat:
+                    st, backend = 'refuted', 'z3-' + z3.get_version_string()
+                    model = self._extract_model(self.finite_model())
+                else:
+                    st, backend = ext_st, ext_backend
+                if st == 'refuted' and model is None:
                     st = 'unknown'   # no model in hand from the CLI: never report as a violation
                     backend += '(sat-without-model)'
             if st != 'proved' and not smt:
@@ -258,7 +279,48 @@ class Engine:
             return dict(self.model)
         if self.solver.check() != z3.sat:
             return None
-        return self._extract_model(self.solver.model())
+        return self._extract_model(self.finite_model())
+
+    def finite_model(self) -> z3.ModelRef:
+        """The model of the current (satisfiable, just checked) solver state -- preferring one in which every JSON object the
+        run has looked into has FINITELY many keys (array default = absent): z3 is free to give an object a non-absent value
+        for 'every other key', which no real JSON document -- and no concrete replay -- can represent.  Only the choice of
+        the witness is affected; no obligation ever sees these constraints."""
+        m = self.solver.model()
+        objs = getattr(self, 'json_objects', None)
+        if not objs:
+            return m
+        from .values import J, ABSENT
+
+        def representable(v, depth=0):
+            if depth > 12:
+                return True
+            if isinstance(v, dict):
+                return '<every-other-key>' not in v and '<unparsed>' not in v and all(representable(x, depth + 1) for x in v.values())
+            if isinstance(v, (list, tuple)):
+                return all(x is not ABSENT and representable(x, depth + 1) for x in v)
+            return True
+        if representable(self._extract_model(m)):
+            return m                       # the common case: no second query
+        self.solver.push()
+        try:
+            for t in objs.values():
+                self.solver.add(z3.Implies(J.is_JObj(t), z3.Default(J.fields(t)) == J.JAbsent))
+            self.solver.set('timeout', 2000)
+            if self.solver.check() == z3.sat:
+                m = self.solver.model()
+        except z3.Z3Exception:
+            pass
+        finally:
+            self.solver.set('timeout', self.timeout_ms)
+            self.solver.pop()
+        return m
+
+    def note_json_object(self, t) -> None:
+        if self.mode == 'sym':
+            d = self.__dict__.setdefault('json_objects', {})
+            if len(d) < 200:
+                d.setdefault(t.get_id(), t)
 
     def _extract_model(self, m: z3.ModelRef) -> dict:
         from . import values
@@ -294,6 +356,69 @@ def _default_for_sort(sort):
         return ''
     from . import values
     return values.default_for_sort(sort)
+
+
+class _ExternalRace:
+    """cvc5 and /usr/bin/z3 on the exported query, started at once and in parallel; `finish()` returns the first decisive
+    answer ('proved' | 'refuted' | 'unknown', backend).  An `unsat` interrupts the in-process z3 run of the caller."""
+    def __init__(self, smt: str, timeout_ms: int, ctx):
+        import threading
+        self.timeout_s = timeout_ms / 1000
+        self.result = None
+        self.ctx = ctx
+        self.lock = threading.Lock()
+        with tempfile.NamedTemporaryFile('w', suffix='.smt2', delete=False, dir=os.environ.get('PYVC_SCRATCH')) as f:
+            f.write(smt)
+            f.write('\n(check-sat)\n' if '(check-sat)' not in smt else '')
+            self.path = f.name
+        self.procs, self.threads = [], []
+        for cmd, backend in ((['/usr/bin/cvc5', '--strings-exp', f'--tlimit={timeout_ms}', self.path], 'cvc5-1.0.3'),
+                             (['/usr/bin/z3', f'-T:{max(1, timeout_ms // 1000)}', self.path], 'z3-4.8.12')):
+            try:
+                p = subprocess.Popen(cmd, stdout=subprocess.PIPE, stderr=subprocess.DEVNULL, text=True)
+            except FileNotFoundError:
+                continue
+            t = threading.Thread(target=self._watch, args=(p, backend), daemon=True)
+            self.procs.append(p); self.threads.append(t)
+            t.start()
+
+    def _watch(self, p, backend):
+        try:
+            out = p.communicate(timeout=self.timeout_s + 5)[0]
+        except subprocess.TimeoutExpired:
+            p.kill()
+            return
+        except Exception:
+            return
+        first = out.strip().splitlines()[0] if out and out.strip() else ''
+        verdict = {'unsat': 'proved', 'sat': 'refuted'}.get(first)
+        if verdict is None:
+            return
+        with self.lock:
+            if self.result is None or (verdict == 'proved' and self.result[0] != 'proved'):
+                self.result = (verdict, backend)
+        if verdict == 'proved':
+            try:
+                if getattr(self, 'in_check', False):
+                    self.ctx.interrupt()      # the in-process z3 may stop: the goal is proved
+            except Exception:
+                pass
+            for q in self.procs:
+                if q is not p and q.poll() is None:
+                    q.kill()
+
+    def finish(self, wait: bool):
+        if wait:
+            for t in self.threads:
+                t.join(self.timeout_s + 6)
+        for p in self.procs:
+            if p.poll() is None:
+                p.kill()
+        try:
+            os.unlink(self.path)
+        except OSError:
+            pass
+        return self.result if self.result is not None else ('unknown', 'z3+cvc5')
 
 
 def _external(smt: str, timeout_ms: int) -> tuple[str, str]:
